@@ -51,6 +51,7 @@ type c14Model struct {
 	nextTgt  int
 	funded   []string // target keys that hold funds
 	legVal   map[int]bool
+	opTgt    bool
 	extraLeg []int // legacy keys created during the run (vesting accounts made by MsgCreateVestingAccount)
 }
 
@@ -781,6 +782,24 @@ func (c *c14Model) genMigrate(r *Run) (Step, bool) {
 	st := gst(r)
 	rng := r.Rng
 	blk := func(txs ...Tx) Step { return Step{Kind: "block", DtMs: gdt(r), N: 1, Txs: txs} }
+	if fresh := c.legNames(r, true); !c.opTgt && len(fresh) > 0 && rng.IntN(6) == 0 {
+		// once per run at most: a target key that operates a validator but holds no staking record any more - it
+		// created the validator, somebody else delegated to it, it withdrew its whole self-delegation and the
+		// unbonding period passed. Still a validator operator: a migration to it must be refused.
+		c.opTgt = true
+		c.nextTgt++
+		n := KeyName("tgt", c.nextTgt)
+		c.funded = append(c.funded, n)
+		self := FX(int64(1000 + rng.IntN(3000)))
+		st.Setup = append(st.Setup,
+			blk(Tx{K: "g_create_validator", S: n, A: A("amount", self.String())}),
+			blk(Tx{K: "g_delegate", S: KeyName("user", rng.IntN(st.NUser)), A: A("valof", n, "amount", FX(int64(1+rng.IntN(50))).String())}),
+			blk(Tx{K: "g_undelegate", S: n, A: A("valof", n, "amount", self.String())}),
+			Step{Kind: "block", DtMs: (r.Cfg.World.UnbondingSec + 30) * 1000, N: 2},
+			blk(Tx{K: "g_migrate", S: fresh[rng.IntN(len(fresh))], A: A("to", n)}))
+		r.Probe("c14-operator-without-staking-records-as-target")
+		return blk(Tx{K: "g_send", S: KeyName("user", rng.IntN(st.NUser)), A: A("to", n, "denom", fxtypes.DefaultDenom, "amount", self.MulRaw(2).String())}), true
+	}
 	if rng.IntN(5) == 0 || (len(c.funded) == 0 && rng.IntN(2) == 0) {
 		// once per run at most: a legacy account becomes a validator operator (must be refused as source)
 		if fresh := c.legNames(r, true); len(c.legVal) == 0 && len(fresh) > 1 && rng.IntN(3) == 0 {
